@@ -173,6 +173,10 @@ def run(ctx, crate):
             wl = S.work_list_of_block(b, s.bb)  # (the recording may run over a queue of the per-pattern results: it then stands in the loop that filled the queue)
             eff_bb = wl[0] if len(wl) == 1 and via_list is None else (via_list or s).bb
             loops_ok = len(b.loops_of(an.bb)) == 2 and b.loops_of(eff_bb) == b.loops_of(an.bb) and ((via_list is None and not wl) or len(b.loops_of(s.bb)) == 2)
+            edited = S.mutable_borrows_of_result(b, an)
+            obs.append(Ob("R03.perfile", w.path, "the per-file result is recorded as the analysis returned it (never borrowed mutably on the way)", not edited, site=an.where,
+                          expected="no `&mut` of the result between the analysis call and the push", found=("mutable borrow at line(s) %s" % edited) if edited else "unmodified",
+                          example="a post-processing step that removes lines from the result depending on what earlier patterns found"))
             obs.append(Ob("R03.perfile", w.path, "per-file result pushed under its own pattern with the file's name",
                           bool(c1 and c2 and c3 and c4 and c5 and loops_ok), site=s.where,
                           expected="for p in patterns: lines = analyze(content(file), _, p); if non-empty: entry(p).or_insert([]).push((name(file), lines))",
